@@ -1332,7 +1332,7 @@ package mcp
 //@
 // C15 / C13 — the core handler dispatches with the context and request it is called with (what the middlewares passed on)
 //@ func mcpHandler.handleRequest$1
-//@   before call dispatchRequest#0 assert[C15 the-core-uses-the-context-the-chain-passes-down] arg1 == ctx && arg2 == req
+//@   before call dispatchRequest#0 assert[C15 the-core-uses-the-context-the-chain-passes-down] arg1 == param0 && arg2 == param1
 //@
 // C10 — in-call notifications are dispatched synchronously on the reader: no goroutine on the dispatch path
 //@ func streamableHTTPClientTransport.handleSSEResponse
